@@ -13,6 +13,7 @@ import (
 	"reflect"
 	"strings"
 	"sync"
+	"sync/atomic"
 	"time"
 
 	"github.com/mattn/anko/ast"
@@ -118,7 +119,12 @@ type result struct {
 	detail  string
 }
 
+var timeouts int32
+
 func parseOnce(src string) (r result) {
+	if atomic.LoadInt32(&timeouts) >= 6 {
+		return result{outcome: "timeout", detail: "not run: the parser did not terminate on several inputs already"}
+	}
 	done := make(chan result, 1)
 	go func() {
 		var rr result
@@ -142,7 +148,8 @@ func parseOnce(src string) (r result) {
 	select {
 	case r = <-done:
 		return r
-	case <-time.After(20 * time.Second):
+	case <-time.After(4 * time.Second):
+		atomic.AddInt32(&timeouts, 1)
 		return result{outcome: "timeout"}
 	}
 }
